@@ -140,6 +140,33 @@ class Check:
     def elapsed(self) -> float:
         return time.time() - self.t0
 
+    def set_worker_minimums(self, minimums: Dict[str, int], n_workers: int) -> None:
+        """Remember this worker's share of the minimum observation counts."""
+        import math
+
+        self.worker_minimums = {
+            name: int(math.ceil(value / max(1, n_workers) * 1.25))
+            for name, value in minimums.items()
+        }
+
+    def should_stop(self, budget: float, hard_factor: float = 4.0) -> bool:
+        """
+        Decide whether a worker should stop generating work.
+
+        Past the wall budget a worker keeps going until it has contributed its share of
+        the minimum observation counts (a loaded machine makes runs longer rather than
+        inconclusive), but never beyond ``hard_factor`` times the budget.
+        """
+        elapsed = self.elapsed()
+        if elapsed <= budget:
+            return False
+        if elapsed > budget * hard_factor:
+            return True
+        minimums = getattr(self, "worker_minimums", None)
+        if not minimums:
+            return True
+        return all(self.counters.get(name, 0) >= value for name, value in minimums.items())
+
     def rng(self, *parts: Any) -> random.Random:
         return random.Random(subseed(self.seed, self.property_id, *parts))
 
